@@ -11,6 +11,19 @@ BASELINE_OFF = ("cd /repo && env -u YOWSUP_VERIF /venv/bin/python -m pytest -ra 
 
 # id -> (level, technique, level text, level note, design ref)
 CHECKS = {
+    "C03": ("exploration",
+            "runtime monitor: offline checker over recorded send/deliver/receipt/wire logs of 2-4 real client stacks driven against an in-process server double by a seeded single-threaded scheduler, with duplicate/corruption faults and restarts",
+            "Each run builds 2-4 real client stacks (network, coder, axolotl control/send/receive, all protocol layers, an "
+            "application layer; real profiles and SQLite key stores; only the connection dispatcher is substituted), logs them in "
+            "(key upload, reconnect) and executes a generated conversation script (text, extended text, link preview, image, "
+            "location, contact; 1:1 and 1-2 groups; bursts, crossing first contacts, restarts between messages) under one of 5 "
+            "scheduling strategies, with per-message server faults (duplicate delivery, one corrupted ciphertext). Message "
+            "content carries unique text and binary markers; after quiescence the checker requires exactly one delivery per "
+            "intended recipient with identical protobuf content, sender and group identity, none elsewhere, no delivery without "
+            "a sent message, the recipient's delivery receipt at the sender, re-acknowledged duplicates, a retry receipt after "
+            "corruption, and no marker in any frame that left a client. 420 runs quick / 25 000 thorough; schedules sampled.",
+            "Trusted: the server double (our reading of the server's routing), python-axolotl (padding shim). Framed wiring without noise/segments (C04/C11 cover those).",
+            "DESIGN.md 4/C03"),
     "C01": ("exploration",
             "runtime monitor: strict tree comparator on encoder->decoder executions of the real codec (direct and through two YowCoderLayers); systematic sweep of format boundary classes + random trees",
             "A complete systematic sweep (every dictionary word in tag/key/value position, packed digit/hex strings of every "
